@@ -22,6 +22,8 @@ LIB = [
     # distinct plain ones
     ("p/alpha", "alpha", False), ("p/beta", "beta", False), ("p/gamma", "gamma", False),
     ("dotimp", "dotimp", False),
+    # package name is not what goimports assumes from the path (C16 / F-23)
+    ("p/pg-driver", "pgdriver", False), ("p/gokit", "kit", False),
     # adversarial
     ("x/go-foo", "foo", True), ("q/x/foo", "bar", True), ("yy/xfoo", "bar", True),
     ("1a/foo", "foo", True), ("y/go-foo", "foo", True), ("w/foo-go", "foo", True),
@@ -77,9 +79,11 @@ def write_library(root):
         d = os.path.join(root, rel)
         os.makedirs(d, exist_ok=True)
         with open(os.path.join(d, "lib.go"), "w") as f:
-            f.write(LIB_DECL % name)
             if rel == "dotimp":
-                f.write("\n// DotT is used through a dot import.\ntype DotT struct{}\n")
+                # only names no source package declares: a dot import must not clash
+                f.write("package dotimp\n\n// DotT is used through a dot import.\ntype DotT struct{}\n")
+            else:
+                f.write(LIB_DECL % name)
     # destination probes: directories that exist under the module root
     for rel, name in (("other2", "other2"), ("probe/same", "same")):
         d = os.path.join(root, rel)
@@ -132,6 +136,9 @@ class SrcGen:
         r = self.r
         want_alias = r.random() < 0.25 or name in self.quals or name in self.local_names
         q = name
+        if not want_alias and r.random() < 0.12:
+            # the package's own name written out: `foo "…/foo"`
+            self.aliased[path] = name
         if want_alias:
             for _ in range(20):
                 if r.random() < 0.4:
@@ -498,7 +505,8 @@ def make_cases(rnd, root, n, adversarial=False, prefix="src"):
             os.makedirs(os.path.dirname(p), exist_ok=True)
             with open(p, "w") as f:
                 f.write(text)
-        out.append({"dir": name, "ifaces": ifaces, "adv": adversarial})
+        out.append({"dir": name, "ifaces": ifaces, "adv": adversarial,
+                    "named": any(re.search(r'^\s*[A-Za-z_]\w* "', t, re.M) for t in files.values())})
     return out
 
 
